@@ -50,3 +50,41 @@ Qed.
    clause rotation-chain observes as "0 timers armed") *)
 Lemma chain_length now w fires : length (timer_chain now w fires) = S (length fires).
 Proof. revert now; induction fires as [|t r IH]; intros now; cbn [timer_chain length]; [reflexivity | now rewrite IH]. Qed.
+
+(* the timer is due at the recorded end, or one minimum delay from now if
+   that is later: never before the end, and less than a day after it *)
+Lemma timer_due mn now e : 0 < mn -> now < e ->
+  e <= now + timer_delay mn now e /\
+  (mn <= e - now -> now + timer_delay mn now e = e) /\
+  now + timer_delay mn now e < e + mn.
+Proof. intros Hm Hn. unfold timer_delay. lia. Qed.
+
+Lemma now_before_end now w : 0 <= w < 7 -> now < snd (counter_span now w).
+Proof.
+  intros Hw. pose proof (span_shape now w Hw) as S. destruct (counter_span now w) as [b e].
+  cbn [snd]. destruct S as [Hb [k [Hk [He _]]]].
+  pose proof (Z.div_mod now 86400 ltac:(lia)) as DM. pose proof (Z.mod_pos_bound now 86400 ltac:(lia)). lia.
+Qed.
+
+Lemma self_timed_on_time n : forall now w, 0 <= w < 7 -> fires_on_time now w (self_timed n now w).
+Proof.
+  induction n as [|n IH]; intros now w Hw; cbn [self_timed fires_on_time]; [exact I|].
+  split; [|apply IH; exact Hw].
+  pose proof (timer_due 60 now (snd (counter_span now w)) ltac:(lia) (now_before_end now w Hw)). lia.
+Qed.
+
+(* a process that lives n weeks beyond its first file, its timers firing when
+   due: n+1 files whose spans tile *)
+Theorem self_timed_tiles n now w : 0 <= w < 7 ->
+  match timer_chain now w (self_timed n now w) with
+  | [] => False
+  | s :: r => s = counter_span now w /\ tiles (snd s) r /\ length r = n
+  end.
+Proof.
+  intros Hw. pose proof (chain_tiles now w _ Hw (self_timed_on_time n now w Hw)) as T.
+  pose proof (chain_length now w (self_timed n now w)) as L.
+  destruct (timer_chain now w (self_timed n now w)) as [|s r]; [exact T|].
+  destruct T as [T1 T2]. split; [exact T1|]. split; [exact T2|].
+  cbn [length] in L. injection L as L. rewrite L.
+  clear. revert now. induction n as [|n IH]; intros now; cbn [self_timed length]; [reflexivity|]. now rewrite IH.
+Qed.
